@@ -109,6 +109,8 @@ def impl(case):
 def make_case(rng, i, tier):
     R = rng.choice(["Float", "Float", "Float", "Real", "Boolean", "MaxTimes"])
     A, B, Cc = ["a", "b"], ["x", "y"], ["u", "v"]
+    if rng.random() < 0.15:
+        A, B, Cc = [0, 1], [0, 2], [0, 3]      # integer symbols: 0 is falsy, EPSILON is the (falsy) empty string
     na, nb = rng.choice([(1, 2), (2, 1), (2, 2), (1, 3), (3, 1), (2, 3), (3, 2)])
     f, sf = gen.gen_fst(rng, nstates=na, in_syms=A, out_syms=B)
     g, sg = gen.gen_fst(rng, nstates=nb, in_syms=B, out_syms=Cc)
